@@ -19,6 +19,9 @@ What is emitted (and nothing else):
     of the loop of rtr_fsm_start) as effect trees over the calls of functions that are not translated (effect mode,
     class TrEff; vocabulary Base/Eff.v) - written to coq/theories/Gen/GeneratedFsm.v (imported by Rtr/FsmTie.v).
     `c2v.py --only-fsm [path]` writes only that file.
+  * second stage of the same (class TrEff2: buffer parameters, switch, do-while by fuel, input buffers): rtr_sync,
+    rtr_handle_error_pdu, rtr_handle_cache_response_pdu, rtr_set_last_update, rtr_stop - written to
+    coq/theories/Gen/GeneratedFsm2.v (imported by Rtr/FsmTie2.v).  `c2v.py --only-fsm2 [path]` writes only that file.
 A construct outside the subset makes the function come out as `<f>_untranslated`, which breaks
 the Coq files that mention `<f>_gen` - a broken tie, handled by the checks.
 """
@@ -2164,6 +2167,469 @@ def generate_fsm():
 
 
 # ---------------------------------------------------------------------------
+# effect mode, second stage (class TrEff2, output Gen/GeneratedFsm2.v): rtr_sync and what it is made of, rtr_stop
+# ---------------------------------------------------------------------------
+# On top of TrEff:
+#   * a second parameter that points into a byte buffer (`const void *buf`, `char *pdu`): the buffer is a memory object
+#     `m_<param> : list Z` and the pointer an offset `v_<param> : option Z` exactly as in memory mode; pointer locals
+#     initialised from it (`const struct pdu_error *pdu = buf`) point into the same object; `p->field` is a guarded
+#     little-endian load (ld_ok / ldu / lds of Base/Mem.v) - a load outside the object is EUndef.  The translated
+#     function is  <f>_gen (m_<param> : list Z) (v_<param> : option Z) (<socket> : store) : eff.
+#   * `switch` on an integer expression without calls (as in Tr: arms as an if-chain, `break` = the code behind the switch).
+#   * `do { body } while (cond)` in a "fuel" entry: the function gets a parameter fuel__ : nat and the loop becomes an
+#     auxiliary
+#         Fixpoint <f>__loop<n> (fuel__ : nat) <locals live at the loop> <socket> : eff
+#     = body; if cond then <f>__loop<n> fuel__ ... else <THE REST OF THE FUNCTION>.  The C loop has no bound: at
+#     fuel__ = 0 the tree makes the pseudo-call ECall "c2v_out_of_fuel" [] and returns -1 - a marker for the
+#     interpretation (the model bounds the same loop by fuel and returns -1 there), not C behaviour.  cond must not call.
+#   * `const char txt[] = "..."`: a memory object with the literal's bytes and its terminating 0.
+#   * external calls may take INPUT buffers (a local array that has been written, or such a string): the argument list
+#     carries, at the argument's position, the object's length followed by its bytes (a null pointer: the single number
+#     0, which reads as "no bytes");  `&sock->field` is an out-parameter whose new value is stored into the field after
+#     the call (written-only for the pairs of EFF_OUT_ONLY).
+#   * a call of a function translated in this file may hand on the buffer (`rtr_handle_error_pdu(rtr_socket, pdu)` with
+#     pdu a written local array: the object at offset 0) and, if the callee takes fuel, fuel__.
+#   * SLICE (entry option "skip"): the declarations of the named locals are not translated, nor are the `if`
+#     statements behind them that mention them - these must be free of effects (no call other than the debug printers,
+#     no assignment to anything declared outside them): rtr_handle_error_pdu's len_err_txt only feeds debug output.
+#     The LOAD in the skipped initialiser is not represented (it is the subject of C04_error_text_len_load_inside).
+FSM2_LEAFS = [
+    ("rtrlib/rtr/rtr.c", "rtr_stop", {}),
+    ("rtrlib/rtr/packets.c", "rtr_set_last_update", {}),
+    ("rtrlib/rtr/packets.c", "rtr_handle_error_pdu", {"skip": ["len_err_txt"]}),
+    ("rtrlib/rtr/packets.c", "rtr_handle_cache_response_pdu", {}),
+    ("rtrlib/rtr/packets.c", "rtr_sync", {"fuel": True}),
+]
+FSM2_OUT = os.path.join(vlib.THEORIES, "Gen", "GeneratedFsm2.v")
+
+
+class TrEff2(TrEff, TrMem):
+    def __init__(self, fn, eff_known, mem_known, enums, sizes, opts):
+        TrEff.__init__(self, fn, eff_known, mem_known, enums, sizes)
+        self.ptr_locals = set()
+        self.obj_of = {}              # buffer pointer variable -> object variable
+        self.buf_param = None
+        self.opts = opts
+        self.skipped = set()
+        self.aux = []
+        self.nloop = 0
+        self.decl_order = []
+
+    # -- memory ----------------------------------------------------------------
+    def base_var(self, n):
+        k = n.get("kind")
+        if k in ("ParenExpr", "ImplicitCastExpr", "CStyleCastExpr", "MemberExpr", "ArraySubscriptExpr"):
+            return self.base_var(inner(n)[0])
+        if k == "UnaryOperator" and n.get("opcode") in ("*", "&"):
+            return self.base_var(inner(n)[0])
+        if k == "BinaryOperator" and n.get("opcode") in ("+", "-"):
+            a, b = inner(n)
+            return self.base_var(a if is_ptr_type(self.qt(a)) or "[" in self.qt(a) else b)
+        if k == "DeclRefExpr":
+            return n["referencedDecl"]["name"]
+        return None
+
+    def objof(self, n):
+        b = self.base_var(n)
+        if b in self.obj_of:
+            return self.obj_of[b]
+        raise Untranslatable("no memory object behind " + str(b))
+
+    def in_buffer(self, lv):
+        return self.through_pointer(lv) and self.base_var(lv) in self.ptr_locals
+
+    def expr(self, n):
+        k = n.get("kind")
+        if k in ("ImplicitCastExpr", "CStyleCastExpr") and n.get("castKind") == "LValueToRValue":
+            sub = inner(n)[0]
+            if self.in_buffer(sub):
+                return self.load(sub, n)
+        if k in ("MemberExpr", "ArraySubscriptExpr") and self.in_buffer(n):
+            return self.load(n, n)
+        if k == "UnaryOperator" and n.get("opcode") == "*" and self.in_buffer(n):
+            return self.load(n, n)
+        if k == "UnaryExprOrTypeTraitExpr" and n.get("name") == "sizeof":
+            at = (n.get("argType") or {}).get("qualType")
+            if at is None and inner(n):
+                at = (inner(n)[0].get("type") or {}).get("qualType")
+            m = re.fullmatch(r"(?:const )?(?:unsigned |signed )?char\s*\[(\d+)\]", at or "")
+            if m:
+                return [], "(%s)" % m.group(1)
+        if k == "DeclRefExpr" and n.get("referencedDecl", {}).get("name") in self.skipped:
+            raise Untranslatable("use of the skipped local " + n["referencedDecl"]["name"])
+        return TrEff.expr(self, n)
+
+    def mentions(self, n, names):
+        if n.get("kind") == "DeclRefExpr" and n.get("referencedDecl", {}).get("name") in names:
+            return True
+        return any(self.mentions(c, names) for c in inner(n))
+
+    def effect_free(self, s, declared):
+        """no call other than the no-ops, no assignment to anything not declared inside"""
+        k = s.get("kind")
+        if k == "CallExpr":
+            return self.callee(s) in EFF_NOOPS
+        if k in ("BinaryOperator", "CompoundAssignOperator") and s.get("opcode", "").endswith("=") \
+                and s["opcode"] not in ("==", "!=", "<=", ">="):
+            return False
+        if k == "UnaryOperator" and s.get("opcode") in ("++", "--"):
+            return False
+        if k in ("ReturnStmt", "BreakStmt", "ContinueStmt", "GotoStmt", "WhileStmt", "DoStmt", "ForStmt", "SwitchStmt"):
+            return False
+        return all(self.effect_free(c, declared) for c in inner(s))
+
+    # -- calls -------------------------------------------------------------------
+    def buffer_arg(self, a):
+        """-> (object variable, pointer term) for an argument that points into a known object, else None"""
+        aa = strip_casts(a, ("ImplicitCastExpr", "ParenExpr", "CStyleCastExpr"))
+        if aa.get("kind") == "DeclRefExpr":
+            nm = aa["referencedDecl"]["name"]
+            if nm in self.arrays:
+                return self.arrays[nm][0], "(Some 0)", nm
+            if nm in self.ptr_locals:
+                return self.obj_of[nm], gname(nm), nm
+        return None
+
+    def emit_call(self, c, var, nxt):
+        name = self.callee(c)
+        if name is None:
+            raise Untranslatable("call through a pointer")
+        args = inner(c)[1:]
+        sv = gname(self.sock)
+        is_void = (c.get("type") or {}).get("qualType", "") == "void"
+        if name in self.mem_known:
+            kinds = self.mem_known[name][0]
+            ts, g, obj = [], [], None
+            for a, kd in zip(args, kinds):
+                if kd == "ptr":
+                    ba = self.buffer_arg(a)
+                    if ba is None:
+                        raise Untranslatable("pointer argument of %s points into no known object" % name)
+                    if obj not in (None, ba[0]):
+                        raise Untranslatable("two memory objects handed to " + name)
+                    obj = ba[0]
+                    ts.append(ba[1])
+                else:
+                    ga, ta = self.expr(a)
+                    g += ga
+                    ts.append(ta)
+            if obj is None:
+                raise Untranslatable("no memory object for " + name)
+            return self.eguarded(g, "eopt (%s_gen %s %s) (fun %s =>\n%s)" % (name, obj, " ".join(ts), var or "_", nxt()))
+        if name in self.eff_known:
+            info = self.eff_known[name]
+            pre = []
+            if info.get("fuel"):
+                if not self.opts.get("fuel"):
+                    raise Untranslatable("call to %s, which takes fuel, from a function that has none" % name)
+                pre.append("fuel__")
+            a0 = strip_casts(args[0]) if args else {}
+            if not (a0.get("kind") == "DeclRefExpr" and a0["referencedDecl"]["name"] == self.sock):
+                raise Untranslatable("call to %s: the first argument is not the socket" % name)
+            if info.get("buf"):
+                if len(args) != 2:
+                    raise Untranslatable("call to %s: arguments" % name)
+                ba = self.buffer_arg(args[1])
+                if ba is None:
+                    raise Untranslatable("call to %s: the buffer argument points into no known object" % name)
+                if ba[2] in self.arrays and not self.arrays[ba[2]][1]:
+                    raise Untranslatable("call to %s with an unwritten array" % name)
+                pre += [ba[0], ba[1]]
+            elif len(args) != 1:
+                raise Untranslatable("call to %s with other arguments than the socket" % name)
+            return "ebind (%s_gen %s) (fun %s %s =>\n%s)" % (name, " ".join(pre + [sv]), var or "_", sv, nxt())
+        # not translated
+        g, segs, outs, fouts, buf = [], [], [], [], None
+
+        def scalar(t):
+            if segs and segs[-1][0] == "s":
+                segs[-1][1].append(t)
+            else:
+                segs.append(("s", [t]))
+        for i, a in enumerate(args):
+            aa = strip_casts(a, ("ImplicitCastExpr", "ParenExpr", "CStyleCastExpr"))
+            q = (a.get("type") or {}).get("qualType", "")
+            if aa.get("kind") == "DeclRefExpr" and aa["referencedDecl"]["name"] == self.sock:
+                continue
+            if aa.get("kind") == "MemberExpr" and is_ptr_type((aa.get("type") or {}).get("qualType", "")):
+                b, _ = self.lvalue_key(aa)
+                if b == self.sock:
+                    continue
+                raise Untranslatable("pointer argument of " + name)
+            if aa.get("kind") == "UnaryOperator" and aa.get("opcode") == "&":
+                tgt = strip_casts(inner(aa)[0])
+                if tgt.get("kind") == "DeclRefExpr" and tgt["referencedDecl"]["name"] in self.locals \
+                        and tgt["referencedDecl"]["name"] not in self.arrays and tgt["referencedDecl"]["name"] != self.sock \
+                        and tgt["referencedDecl"]["name"] not in self.ptr_locals:
+                    nm = tgt["referencedDecl"]["name"]
+                    if (name, i) not in EFF_OUT_ONLY:
+                        scalar(gname(nm))
+                    outs.append(("local", nm))
+                    continue
+                if tgt.get("kind") == "MemberExpr" and self.ty(tgt) is not None:
+                    b, key = self.lvalue_key(tgt)
+                    if b == self.sock:
+                        if (name, i) not in EFF_OUT_ONLY:
+                            scalar('(sget "%s" %s)' % (key, sv))
+                        outs.append(("field", key))
+                        continue
+                raise Untranslatable("address-of argument of " + name)
+            if aa.get("kind") == "DeclRefExpr" and aa["referencedDecl"]["name"] in self.arrays:
+                ent = self.arrays[aa["referencedDecl"]["name"]]
+                if ent[1]:
+                    segs.append(("b", ent[0]))           # input buffer: length, bytes
+                    continue
+                if buf is not None:
+                    raise Untranslatable("two unwritten arrays handed to " + name)
+                buf = ent
+                continue
+            if is_null_ptr(a):
+                scalar("(0)")
+                continue
+            if is_ptr_type(q):
+                raise Untranslatable("pointer argument of " + name)
+            ga, ta = self.expr(a)
+            g += ga
+            scalar(ta)
+        lets, pos = [], 0
+        if not is_void:
+            if var:
+                lets.append("let %s := nth %d%%nat res__ 0 in" % (var, pos))
+            pos += 1
+        for kind_, nm in outs:
+            if kind_ == "local":
+                lets.append("let %s := nth %d%%nat res__ 0 in" % (gname(nm), pos))
+            else:
+                lets.append('let %s := sset "%s" (nth %d%%nat res__ 0) %s in' % (sv, nm, pos, sv))
+            pos += 1
+        if buf is not None:
+            lets.append("let %s := skipn %d%%nat res__ in" % (buf[0], pos))
+            buf[1] = True
+        parts = []
+        for kd, v in segs:
+            parts.append("[%s]" % "; ".join(v) if kd == "s" else "(Z.of_nat (List.length %s) :: %s)" % (v, v))
+        if not parts:
+            argt = "[]"
+        elif len(parts) == 1 and segs[0][0] == "s":
+            argt = parts[0]
+        else:
+            argt = "(" + " ++ ".join(parts) + ")%list"
+        body = nxt()
+        return self.eguarded(g, 'ECall "%s" %s %s (fun res__ %s =>\n%s%s)'
+                             % (name, argt, sv, sv, "".join(x + "\n" for x in lets), body))
+
+    # -- statements ----------------------------------------------------------------
+    def live_params(self):
+        """the locals a loop function takes, in declaration order: (Coq binder, Coq name)"""
+        out = []
+        for nm in self.decl_order:
+            if nm in self.arrays:
+                out.append(("(%s : list Z)" % self.arrays[nm][0], self.arrays[nm][0]))
+            elif nm in self.ptr_locals:
+                raise Untranslatable("pointer local live at a loop")
+            elif nm in self.locals:
+                out.append(("(%s : Z)" % gname(nm), gname(nm)))
+        return out
+
+    def stmts(self, lst, k):
+        if not lst:
+            return k()
+        s, rest = lst[0], lst[1:]
+        kind = s.get("kind")
+        nxt = lambda: self.stmts(rest, k)  # noqa: E731
+        sv = gname(self.sock)
+        if kind == "DeclStmt":
+            ds = inner(s)
+            if len(ds) == 1 and ds[0].get("kind") == "VarDecl":
+                d = ds[0]
+                q = d["type"].get("desugaredQualType", d["type"]["qualType"])
+                ins = inner(d)
+                if d["name"] in self.opts.get("skip", ()):
+                    if ins and not self.effect_free(ins[0], set()):
+                        raise Untranslatable("skipped local %s has an initialiser with effects" % d["name"])
+                    self.skipped.add(d["name"])
+                    return nxt()
+                if is_ptr_type(q) and ins:
+                    g, t = self.pexpr(ins[0])
+                    self.obj_of[d["name"]] = self.objof(ins[0])
+                    self.locals.add(d["name"])
+                    self.ptr_locals.add(d["name"])
+                    self.decl_order.append(d["name"])
+                    return self.eguarded(g, "let %s := %s in\n%s" % (gname(d["name"]), t, nxt()))
+                m = re.fullmatch(r"(?:const )?char\s*\[(\d+)\]", q)
+                lit = strip_casts(ins[0]) if ins else {}
+                if m and lit.get("kind") == "StringLiteral":
+                    bs = list(json.loads(lit["value"]).encode("latin-1")) + [0]
+                    if len(bs) != int(m.group(1)):
+                        raise Untranslatable("string initialiser of %s: length" % d["name"])
+                    obj = "m_" + d["name"]
+                    self.locals.add(d["name"])
+                    self.arrays[d["name"]] = [obj, True]
+                    self.decl_order.append(d["name"])
+                    return "let %s : list Z := [%s] in\n%s" % (obj, "; ".join(str(b) for b in bs), nxt())
+            for d in ds:
+                if d.get("kind") == "VarDecl":
+                    self.decl_order.append(d["name"])
+            return TrEff.stmts(self, lst, k)
+        if kind == "IfStmt" and self.skipped and self.mentions(s, self.skipped):
+            if not self.effect_free(s, set()):
+                raise Untranslatable("an `if` that mentions a skipped local has effects")
+            return nxt()
+        if kind == "SwitchStmt":
+            ins = inner(s)
+            if self.calls_in(ins[0]):
+                raise Untranslatable("call in the switch expression")
+            g, tx = self.expr(ins[0])
+            items = []
+
+            def flat(n):
+                kk = n.get("kind")
+                if kk == "CaseStmt":
+                    cins = inner(n)
+                    gv, tv = self.expr(cins[0])
+                    items.append(("case", tv))
+                    flat(cins[-1])
+                elif kk == "DefaultStmt":
+                    items.append(("case", None))
+                    flat(inner(n)[-1])
+                else:
+                    items.append(("stmt", n))
+            for c in inner(ins[1]):
+                flat(c)
+            snap = self.snapshot()
+
+            def from_pos(p):
+                out = []
+                for it in items[p:]:
+                    if it[0] != "stmt":
+                        continue
+                    if it[1].get("kind") == "BreakStmt":
+                        break
+                    out.append(it[1])
+                self.restore(snap)
+                self.break_k.append(nxt)
+                r = self.stmts(out, nxt)
+                self.break_k.pop()
+                self.restore(snap)
+                return r
+            xv = "sw__%d" % self.fresh
+            self.fresh += 1
+            arms, default_pos = [], None
+            for p, it in enumerate(items):
+                if it[0] == "case":
+                    if it[1] is None:
+                        default_pos = p
+                    else:
+                        arms.append((it[1], p))
+            term = from_pos(default_pos) if default_pos is not None else nxt()
+            for val, p in reversed(arms):
+                term = "if (%s =? %s)\nthen (%s)\nelse (%s)" % (xv, val, from_pos(p), term)
+            return self.eguarded(g, "let %s := %s in\n%s" % (xv, tx, term))
+        if kind == "BreakStmt" and self.break_k:
+            return self.break_k[-1]()
+        if kind == "DoStmt":
+            if not self.opts.get("fuel"):
+                raise Untranslatable("do-while loop in a function without fuel")
+            body, cnd = inner(s)[0], inner(s)[1]
+            js = json.dumps(body)
+            if '"BreakStmt"' in js or '"ContinueStmt"' in js:
+                raise Untranslatable("break / continue in a do-while loop")
+            if self.calls_in(cnd):
+                raise Untranslatable("call in the loop condition")
+            params = self.live_params()
+            lname = "%s__loop%d" % (self.fn["name"], self.nloop)
+            self.nloop += 1
+            names = " ".join(nm for _, nm in params)
+            call = "%s fuel__ %s %s" % (lname, names, sv)
+            saved_break = self.break_k
+            self.break_k = []
+            snap = self.snapshot()
+
+            def after():
+                g, tc = self.cond(cnd)
+                again = "%s fuel__ %s %s" % (lname, " ".join(nm for _, nm in params), sv)
+                return self.eguarded(g, "if %s\nthen (%s)\nelse (%s)" % (tc, again, nxt()))
+            bt = self.stmts([body], after)
+            self.break_k = saved_break
+            self.aux.append(
+                "Fixpoint %s (fuel__ : nat) %s (%s : store) {struct fuel__} : eff :=\nmatch fuel__ with\n"
+                "| O => ECall \"c2v_out_of_fuel\" [] %s (fun res__ %s => ERet (-1) %s)\n| S fuel__ =>\n%s\nend.\n"
+                % (lname, " ".join(b for b, _ in params), sv, sv, sv, sv, bt))
+            return call
+        return TrEff.stmts(self, lst, k)
+
+    # -- whole function ------------------------------------------------------------
+    def setup(self):
+        fn = self.fn
+        params = [c for c in inner(fn) if c.get("kind") == "ParmVarDecl"]
+        if not params or not re.fullmatch(r"struct rtr_socket \*", params[0]["type"]["qualType"].replace("const ", "").strip()):
+            raise Untranslatable("the first parameter is not the socket")
+        if len(params) > 2:
+            raise Untranslatable("more than two parameters")
+        self.sock = params[0]["name"]
+        self.locals.add(self.sock)
+        self.ptr_params = [self.sock]
+        self.result_kind = "eff"
+        if len(params) == 2:
+            p = params[1]
+            if not is_ptr_type(p["type"]["qualType"]) or "struct rtr_socket" in p["type"]["qualType"]:
+                raise Untranslatable("the second parameter is not a buffer pointer")
+            self.buf_param = p["name"]
+            self.locals.add(p["name"])
+            self.ptr_locals.add(p["name"])
+            self.obj_of[p["name"]] = "m_" + p["name"]
+        return [c for c in inner(fn) if c.get("kind") == "CompoundStmt"][0]
+
+    def function(self, mutates=False):
+        body = self.setup()
+        rq = self.fn["type"]["qualType"].split("(")[0].strip()
+        fall = (lambda: self.leave(0)) if rq == "void" else (lambda: "EUndef (* falls off the end *)")
+        term = self.stmts([body], fall)
+        sig = []
+        if self.opts.get("fuel"):
+            sig.append("(fuel__ : nat)")
+        if self.buf_param:
+            sig += ["(m_%s : list Z)" % self.buf_param, "(%s : option Z)" % gname(self.buf_param)]
+        sig.append("(%s : store)" % gname(self.sock))
+        text = "".join(a + "\n" for a in self.aux) + "Definition %s_gen %s : eff :=\n%s.\n" % (self.fn["name"], " ".join(sig), term)
+        return text, {"ret": "void" if rq == "void" else "Z", "buf": bool(self.buf_param), "fuel": bool(self.opts.get("fuel"))}
+
+
+def generate_fsm2():
+    """text of Gen/GeneratedFsm2.v: rtr_sync and its parts, rtr_stop, as effect trees"""
+    out, problems = [], []
+    w = out.append
+    w("(* GENERATED by tools/c2v.py (effect mode, second stage) from the repository sources - do not edit. *)")
+    w("From RtrV Require Import Base.CSem Base.Mem Base.Eff Gen.Generated Gen.GeneratedMem.")
+    w("Local Open Scope string_scope.\nLocal Open Scope Z_scope.\n")
+    if "known" not in _MEM_CTX:
+        generate_mem()
+    mem_known = dict(_MEM_CTX.get("known", {}))
+    enums_all = dict(_MEM_CTX.get("enums", {}))
+    sizes = _MEM_CTX.get("sizes", {})
+    eff_known = {}
+    for cfile, fname, opts in FSM2_LEAFS:
+        try:
+            fn = find_def(cfile, fname)
+            if fn is None:
+                raise Untranslatable("definition not found")
+            tr = TrEff2(fn, eff_known, mem_known, enums_all, sizes, opts)
+            text, info = tr.function()
+            eff_known[fname] = info
+            w("(* %s : %s%s%s *)" % (cfile, fname,
+                                     " - SLICE: without the locals %s and the effect-free `if`s that mention them"
+                                     % ", ".join(opts["skip"]) if opts.get("skip") else "",
+                                     " - its do-while loop by fuel" if opts.get("fuel") else ""))
+            w(text)
+        except Exception as e:  # noqa: BLE001
+            problems.append("function %s: %s" % (fname, e))
+            w("(* %s could not be translated: %s *)" % (fname, str(e).replace("*)", "* )")))
+            w("Definition %s_untranslated := tt.\n" % fname)
+    w("Definition fsm2_translator_problems : list string := [%s]." % "; ".join(coq_string(p[:200]) for p in problems))
+    return "\n".join(out) + "\n", problems
+
+
+# ---------------------------------------------------------------------------
 # lock skeletons
 # ---------------------------------------------------------------------------
 # For every non-static function of trie-pfx.c / ht-spkitable.c the translator emits a small
@@ -3203,6 +3669,14 @@ def write_if_changed(path, text, label):
 
 
 def main():
+    # --only-fsm2 [path]: write only Gen/GeneratedFsm2.v (to `path` if given)
+    if "--only-fsm2" in sys.argv[1:]:
+        rest = [a for a in sys.argv[1:] if a != "--only-fsm2"]
+        ftext, fproblems = generate_fsm2()
+        write_if_changed(rest[0] if rest else FSM2_OUT, ftext, "GeneratedFsm2.v")
+        for p in fproblems:
+            print("c2v: problem:", p)
+        return 0
     # --only-fsm [path]: write only Gen/GeneratedFsm.v (to `path` if given)
     if "--only-fsm" in sys.argv[1:]:
         rest = [a for a in sys.argv[1:] if a != "--only-fsm"]
@@ -3239,7 +3713,9 @@ def main():
     write_if_changed(MEMW_OUT, wtext, "GeneratedMemW.v")
     ftext, fproblems = generate_fsm()
     write_if_changed(FSM_OUT, ftext, "GeneratedFsm.v")
-    mproblems = mproblems + iproblems + wproblems + fproblems
+    f2text, f2problems = generate_fsm2()
+    write_if_changed(FSM2_OUT, f2text, "GeneratedFsm2.v")
+    mproblems = mproblems + iproblems + wproblems + fproblems + f2problems
     for p in problems + sproblems + mproblems:
         print("c2v: problem:", p)
     return 0
